@@ -211,7 +211,7 @@ impl World {
         if resp.status != TopLevelStatus::Succeeded {
             let err = resp.error.clone().or_else(|| resp.results.iter().find_map(|r| r.error.clone()));
             return match err {
-                Some(e) => Outcome::Refused { code: e.code.to_string(), message: e.message.clone() },
+                Some(e) => { if std::env::var("VH_TRACE_CODE").ok().as_deref() == Some(&e.code.to_string()) { eprintln!("TRACE {} :: {} :: {}", e.code, e.message, text.replace('\n', " ")); } Outcome::Refused { code: e.code.to_string(), message: e.message.clone() } }
                 None => Outcome::Odd("failed without an error object".into()),
             };
         }
